@@ -96,6 +96,11 @@ class HybridRun:
                                                            ctx.sched.random() < rate) else None)
         cur = {k: as_vec(v) for k, v in g.current_samples.items()}
         steps = dict(g.num_sampling_steps)
+        for n_ in names:
+            if n_ not in sc["steps"]:
+                ctx.hit("step_count_omitted_for_a_block")
+                if steps.get(n_) != 1:
+                    ctx.violate(PROP, "step_count", self.sig(block_kind=sc["strategy"][n_]["kind"]), block=n_, default=steps.get(n_))
         visits = []
         hist = []                                       # cur after each sweep
         st = {"pre": {}}
@@ -121,6 +126,8 @@ class HybridRun:
                             if not close(a, b, 1e-8):
                                 ctx.violate(PROP, "freshness", self.sig(block_kind=kind),
                                             block=name, got=a, expected=b, sweep=len(hist))
+                        elif sc["joint"]["shape"] == "x_d_reg":
+                            ctx.count("freshness_not_judged_implicit_prior_has_no_logd")   # judged by the stand-alone replay
                         else:
                             ctx.undecided("freshness probe non-finite")
                     except Exception as e:                  # a conditional that cannot be evaluated is not judged
@@ -241,7 +248,7 @@ class HybridRun:
         import cuqi.experimental.mcmc as M
         ctx = self.ctx
         post_rng = np.random.get_state()
-        n_steps = self.sc["steps"][name]
+        n_steps = self.sc["steps"].get(name, 1)
 
         def replay(stale):
             kn = dict(self.sc["strategy"][name]["knobs"])
